@@ -16,6 +16,7 @@ PRIMS = ["bool", "char", "signed char", "unsigned char", "short", "unsigned shor
          "unsigned long", "long long", "unsigned long long", "float", "double"]
 INTLIKE = set(PRIMS[:12])
 VIS = ["published", "public", "protected", "private"]
+PY_KEYWORD_NAMES = ["del", "from", "pass", "lambda", "is", "yield", "global", "with", "as", "in", "def", "import", "raise", "async"]
 FILES = ["main", "cwd", "I", "S", "sib"]
 OPS = ["[]", "==", "<", "+", "-", "*", "+=", "()", "!=", "~", "unary-"]
 
@@ -250,6 +251,8 @@ def build(raw, opts=None):
     lib = Lib()
     lib.impl_mode = bool(opts.get("impl"))
     lib.no_overloads = bool(opts.get("no_overloads"))
+    lib.py_distinct = bool(opts.get("py_distinct"))
+    kw_names = bool(opts.get("keyword_names"))
     avoid = set(opts.get("avoid", ()))
     want_ns = raw.get("ns") and not opts.get("no_namespace")
     nsname = "nsp" if want_ns else None
@@ -283,6 +286,8 @@ def build(raw, opts=None):
         if k == "void":
             return Type("void") if allow_void else Type("prim", "int")
         if k == "prim":
+            if lib.py_distinct and PRIMS[rt["p"]] == "char":
+                return Type("prim", "signed char")       # plain char is a one-character string at the Python level, not an integer
             return Type("prim", PRIMS[rt["p"]])
         if k == "enum":
             pool = lib.enums + [ne for c in lib.classes[:cur_class_index + 1] for ne in c["nested_enums"]
@@ -355,6 +360,11 @@ def build(raw, opts=None):
                 e = lib.ent(kind="method", cls=c, vis=VIS[rm["vis"]], static=static, const=rm["const"] and not static, virt=virt,
                             file=c["file"], doc=rm.get("doc", 0))
                 e["name"] = "m%d_%s" % (e["id"], ["run", "get_val", "class", "set_it", "print", "x_y_z"][e["id"] % 6])
+                if kw_names and e["id"] % 3 == 0:
+                    kw = PY_KEYWORD_NAMES[e["id"] % len(PY_KEYWORD_NAMES)]
+                    if not any(x.get("name") == kw for x in c["members"]) and not any(x.get("name") == kw for a in _ancestors(c) for x in a["members"]):
+                        e["name"] = kw          # a Python keyword that is a plain identifier in C++
+                        lib.features.add("name.keyword")
                 e["ovs"] = _sigs(lib, rm["ovs"], lambda rt, **kw: rtype(rt, ci, own=c, **kw), e)
                 if not e["ovs"]:
                     lib.entities.remove(e)
@@ -406,8 +416,9 @@ def build(raw, opts=None):
                 form = ["user", "default", "delete"][rm["form"]]
                 if form != "user" and params:
                     form = "user"
-                key = tuple(p.overload_key() for p in params)
-                if any(x["kind"] == "ctor" and tuple(p.overload_key() for p in x["params"]) == key for x in c["members"]):
+                keyf = (lambda p: p.category()) if lib.py_distinct else (lambda p: p.overload_key())
+                key = tuple(keyf(p) for p in params)
+                if any(x["kind"] == "ctor" and tuple(keyf(p) for p in x["params"]) == key for x in c["members"]):
                     continue
                 e = lib.ent(kind="ctor", cls=c, vis=VIS[rm["vis"]], params=params, explicit=rm["explicit"] and len(params) == 1,
                             form=form, file=c["file"], dv=rm["dv"])
@@ -605,7 +616,11 @@ def _sigs(lib, rawsigs, rtype, ent):
                 break
             defaults[i] = d
         ndef = sum(1 for d in defaults if d is not None)
-        keys = [tuple(p.overload_key() for p in params[:a]) for a in range(len(params) - ndef, len(params) + 1)]
+        if lib.py_distinct:
+            # overloads must differ in the Python type category of some parameter (int / float / str / class)
+            keys = [tuple(p.category() for p in params[:a]) for a in range(len(params) - ndef, len(params) + 1)]
+        else:
+            keys = [tuple(p.overload_key() for p in params[:a]) for a in range(len(params) - ndef, len(params) + 1)]
         if any(k in used for k in keys):
             continue
         used.update(keys)
@@ -836,9 +851,10 @@ def _nexpr(t, name, i):
     if t.kind in ("cstr", "str"):
         return "%d * vf_len(%s)" % (i + 1, name)
     if t.kind == "obj":
+        # the object's state, not its tag: tags depend on how many scratch objects a binding layer creates
         if t.mode in (3, 4):
-            return "(%s ? %d * (long long)%s->vf_life.tag : 0)" % (name, i + 1, name)
-        return "%d * (long long)%s.vf_life.tag" % (i + 1, name)
+            return "(%s ? %d * (long long)(%s->vf_acc + 1) : 0)" % (name, i + 1, name)
+        return "%d * (long long)(%s.vf_acc + 1)" % (i + 1, name)
     return "0"
 
 
@@ -871,7 +887,9 @@ def _body(ent, ov, cls, label, is_method, const):
         L.append('  vf_emit(vf_line + "void");')
         return L
     if r.kind == "prim":
-        if r.name == "bool":
+        if ent.get("role") == "seq_num":
+            L.append("  int vf_r = (int)((unsigned long long)vf_sum % 4);")      # a sequence length: small and never negative
+        elif r.name == "bool":
             L.append("  bool vf_r = (vf_sum & 1) != 0;")
         elif r.name in ("float", "double"):
             L.append("  %s vf_r = (%s)(vf_sum %% 4096) * 0.5 + 0.25;" % (r.name, r.name))
@@ -972,6 +990,7 @@ def render_impl(lib):
         L.append("  return s.c_str();")
         L.append("}")
     L.append('__attribute__((visibility("default"))) int vf_live_count() { return vf_live(); }')
+    L.append('__attribute__((visibility("default"))) void vf_mark(const char *text) { vf_emit(text); }')
     L.append("}")
     for fn in lib.funcs:
         for ov in fn["ovs"]:
